@@ -1,7 +1,7 @@
 #!/bin/bash
 # usage: verify_seed.sh <PROP> <a|b>  -- confirms a sub-agent's seeded change in a scratch worktree
 PROP=$1; V=$2
-S=/tmp/seeds/$PROP
+S=${SEEDROOT:-/tmp/seeds}/$PROP
 WT=/tmp/wt_verify_$PROP$V
 rm -rf $WT; git -C /repo worktree prune; git -C /repo worktree add -q --detach $WT HEAD || exit 9
 export PYTHONPATH=$WT PANOPTICA_CITATION_REMINDER=false
